@@ -181,7 +181,7 @@ CHECKS["C20"] = {
     "technique": "exhaustive enumeration of configuration-snapshot histories x one injected callback panic on the real supervisor/registry goroutines, quiescence by testing/synctest",
     "level_text": "every sequence of snapshots up to the bound over names {a,b} x {absent, K1 v1, K1 v2, K2 v1}, each followed to quiescence through the real ObjectRegistry.run -> applyConfig -> watcher -> "
                   "Supervisor.run -> handleEvent chain, with at most one panic injected at any lifecycle callback; oracle = reference lifecycle (DESIGN A.8): Init once on appearance, Inherit once per "
-                  "spec change with the live generation as predecessor, Close once on disappearance, nothing when unchanged, kind change = Close(old)+Init(new), live set = last snapshot, the other name unaffected by a panic; an object whose Init / Inherit panicked is tracked on (it is still closed exactly once when its name disappears)",
+                  "spec change with the live generation as predecessor, Close once on disappearance, nothing when unchanged, kind change = Close(old)+Init(new), live set = last snapshot, the other name unaffected by a panic; an object whose Init / Inherit panicked is tracked on (it is still closed exactly once when its name disappears); unit rawconfig: snapshot histories of Pipeline objects (2 names x {absent, v1, v2}) through ObjectRegistry -> watcher -> RawConfigTrafficController.handleEvent -> TrafficController -> the real Pipeline, observed through a recording filter kind; the handler handed out belongs to the latest snapshot",
     "level_note": "two test controller kinds registered in the supervisor registry; cluster mocked by clustertest.MockedCluster whose SyncPrefix channel the harness feeds",
     "rule": "choice tree: entry of each name in each snapshot (4x4 per snapshot) + panic-or-not at each callback (deviation bound 1); distinct_nontrivial = distinct multisets of callbacks",
     "explanation": "states = executions (each a distinct snapshot history/panic point); every execution ran the real goroutines to quiescence",
@@ -189,6 +189,7 @@ CHECKS["C20"] = {
     "assumptions": [],
     "units": [
         {"name": "supervisor", "pkg": "pkg/supervisor", "test": "TestVerifC20"},
+        {"name": "rawconfig", "pkg": "pkg/object/rawconfigtrafficcontroller", "test": "TestVerifC20rc"},
     ],
 }
 
